@@ -28,6 +28,14 @@ import (
 // to "the pending batch was taken out" in Consume.
 //
 // Nothing is executed; the domain is finite (lengths are capped), so the exploration terminates.
+//
+// Helpers. The discipline does not depend on how the code is cut into functions: a static call of a function of the
+// package that (transitively) touches the slot or flushes is walked as part of the caller's path (parameters bound to
+// the caller's values, the returned value a new name of what the helper returned; depth ≤ 4, no recursion). A function
+// that stores to the slot is first decided on its own; if that fails and it is an unexported function whose only uses
+// are direct calls from the package (`takeCurrentBatch() *batch`, `keepLastIfSmall(ctx, list, done) list`), its
+// obligations are decided in the context of each of its callers instead. List versions are followed through helpers
+// that return (a re-slice of) the list they were given, and the flush loop may live in a helper that is handed the list.
 
 type batcherAnchors struct {
 	pk        *packages.Package
@@ -142,6 +150,39 @@ func findBatcher(c *Ctx) *batcherAnchors {
 			})
 		}
 	}
+	// … and the methods that pass their own request on to such a method (`flush` starting `go qb.export(ctx, req, done)`)
+	for changed := true; changed; {
+		changed = false
+		for _, fn := range p.AllSrcFuncs(pk) {
+			if fn.Parent() != nil || recvNamedOfFn(fn) != a.T || a.flushFns[fn] {
+				continue
+			}
+			var own []ssa.Value
+			for _, prm := range fn.Params {
+				if types.Identical(prm.Type(), a.reqIface) {
+					own = append(own, prm)
+				}
+			}
+			if len(own) == 0 {
+				continue
+			}
+			for _, f := range withAnon(fn) {
+				allInstrs(f, func(in ssa.Instruction) {
+					ci, ok := in.(ssa.CallInstruction)
+					if !ok || !a.flushFns[goBodyFn(ci)] {
+						return
+					}
+					for _, arg := range ci.Common().Args {
+						for _, o := range own {
+							if strip(arg) == o && !a.flushFns[fn] {
+								a.flushFns[fn], changed = true, true
+							}
+						}
+					}
+				})
+			}
+		}
+	}
 	if len(a.flushFns) == 0 {
 		c.Anchor("batcher flush method (calls the send function field with a request)")
 		return nil
@@ -223,11 +264,27 @@ type bState struct {
 	headPlaced map[ssa.Value]int8 // 1: req stored, 2: done appended, 3: both
 	tailOwed   ssa.Value
 	tailAt     ssa.Instruction
+	tailSrc    ssa.Value // the list whose last element the pending drop (tailOwed) removed
+	// tailPlaced: the list whose last element already sits in the batch that was stored into the slot, while the
+	// list itself has not been shortened yet (store first, list[:len-1] afterwards – the order a helper written with
+	// guard clauses uses)
+	tailPlaced ssa.Value
+	// interprocedural part: parameters of the helpers being walked, bound to the (resolved) caller-side values,
+	// and the values returned by a helper with several results
+	bind map[ssa.Value]ssa.Value
+	rets map[ssa.Value][]ssa.Value
 }
 
 func (s *bState) clone() *bState {
-	n := &bState{slot: s.slot, owed: s.owed, owedAt: s.owedAt, tailOwed: s.tailOwed, tailAt: s.tailAt,
-		alias: map[ssa.Value]bool{}, saved: map[ssa.Value]bool{}, nilv: map[ssa.Value]int8{}, lens: map[ssa.Value]ival{}, headPlaced: map[ssa.Value]int8{}}
+	n := &bState{slot: s.slot, owed: s.owed, owedAt: s.owedAt, tailOwed: s.tailOwed, tailAt: s.tailAt, tailSrc: s.tailSrc, tailPlaced: s.tailPlaced,
+		alias: map[ssa.Value]bool{}, saved: map[ssa.Value]bool{}, nilv: map[ssa.Value]int8{}, lens: map[ssa.Value]ival{}, headPlaced: map[ssa.Value]int8{},
+		bind: map[ssa.Value]ssa.Value{}, rets: map[ssa.Value][]ssa.Value{}}
+	for k, v := range s.bind {
+		n.bind[k] = v
+	}
+	for k, v := range s.rets {
+		n.rets[k] = v
+	}
 	for k, v := range s.alias {
 		n.alias[k] = v
 	}
@@ -248,7 +305,17 @@ func (s *bState) clone() *bState {
 
 func (s *bState) key() string {
 	var parts []string
-	parts = append(parts, fmt.Sprintf("s%d o%v t%p", s.slot, s.owed, s.tailOwed))
+	parts = append(parts, fmt.Sprintf("s%d o%v t%p/%p/%p", s.slot, s.owed, s.tailOwed, s.tailSrc, s.tailPlaced))
+	for k, v := range s.bind {
+		parts = append(parts, fmt.Sprintf("b%p=%p", k, v))
+	}
+	for k, v := range s.rets {
+		r := fmt.Sprintf("r%p=", k)
+		for _, x := range v {
+			r += fmt.Sprintf("%p;", x)
+		}
+		parts = append(parts, r)
+	}
 	for k, v := range s.alias {
 		if v {
 			parts = append(parts, fmt.Sprintf("a%p", k))
@@ -279,12 +346,109 @@ type batcherEngine struct {
 	lenOf   map[ssa.Value]ssa.Value // len(v) call -> v
 	lastIdx map[ssa.Value]ssa.Value // len(v)-1 -> v
 	doneCur map[ssa.Value]bool
+	// curPhi: in any function of the package, a phi that merges the function's raw Done parameter with the ref-counted
+	// callback made from it (`if len(list) > 1 { done = newRefCountDone(done, …) }`) -> that parameter
+	curPhi map[ssa.Value]*ssa.Parameter
 	// results (deduplicated by construct)
-	bad      map[string][2]string
-	okSites  map[string]string
-	visited  map[string]bool
-	steps    int
-	tailSrcM map[ssa.Value]ssa.Value
+	bad     map[string][2]string
+	okSites map[string]string
+	visited map[string]bool
+	steps   int
+	// interprocedural part: the package's functions, and those of them that (transitively, through static calls)
+	// touch the slot or flush – a call of such a function is walked as part of the caller's path
+	pkgFns   []*ssa.Function
+	relevant map[*ssa.Function]bool
+}
+
+// bFrame: one pending call of a helper that is being walked as part of its caller's path.
+type bFrame struct {
+	call   *ssa.Call
+	callee *ssa.Function
+	blk    *ssa.BasicBlock
+	idx    int // index (in blk) of the instruction that follows the call
+	up     *bFrame
+	depth  int
+	key    string
+}
+
+func (f *bFrame) k() string {
+	if f == nil {
+		return ""
+	}
+	return f.key
+}
+
+const batcherInlineDepth = 4
+
+// res: the caller-side value a helper's parameter stands for on the current path (v itself otherwise).
+func (e *batcherEngine) res(s *bState, v ssa.Value) ssa.Value {
+	for i := 0; i < 2*batcherInlineDepth; i++ {
+		w, ok := s.bind[v]
+		if !ok {
+			break
+		}
+		v = w
+	}
+	return v
+}
+
+// rs: res modulo the value-preserving wrappers strip() removes.
+func (e *batcherEngine) rs(s *bState, v ssa.Value) ssa.Value {
+	if v == nil {
+		return nil
+	}
+	return strip(e.res(s, strip(v)))
+}
+
+// isCur: v is the current (possibly ref-counted) completion callback of the request being consumed.
+func (e *batcherEngine) isCur(s *bState, v ssa.Value) bool {
+	v = e.rs(s, v)
+	for i := 0; i < 2*batcherInlineDepth; i++ {
+		if e.doneCur[v] {
+			return true
+		}
+		if prm, ok := e.curPhi[v]; ok {
+			// current inside a helper if the callback the helper was handed is the current one of its caller
+			v = e.rs(s, prm)
+			continue
+		}
+		// the raw callback of the function under analysis, handed on to a helper that takes the split decision itself
+		// (that it is not used any more once the function has taken a split decision of its own is a separate obligation)
+		prm, ok := v.(*ssa.Parameter)
+		return ok && prm.Parent() == e.fn && types.Identical(prm.Type(), e.a.doneIface)
+	}
+	return false
+}
+
+func (e *batcherEngine) isBatchPtr(t types.Type) bool {
+	pt, ok := t.(*types.Pointer)
+	return ok && namedOf(pt.Elem()) == e.a.B
+}
+
+// copyInfo: `to` is a new name of the value `from` (phi edge, value returned by a helper).
+func (e *batcherEngine) copyInfo(s *bState, src *bState, from, to ssa.Value) {
+	if l, ok := src.lens[from]; ok {
+		s.lens[to] = l
+		if h, ok := src.headPlaced[from]; ok {
+			s.headPlaced[to] = h
+		} else {
+			delete(s.headPlaced, to)
+		}
+		if src.tailOwed == from {
+			s.tailOwed = to
+		}
+	} else {
+		delete(s.lens, to)
+	}
+	if e.isBatchPtr(to.Type()) {
+		if isNilConst(from) {
+			s.nilv[to] = nNil
+			s.alias[to], s.saved[to] = false, false
+		} else {
+			s.nilv[to] = src.nilv[from]
+			s.alias[to], s.saved[to] = src.alias[from], src.saved[from]
+		}
+	}
 }
 
 func (e *batcherEngine) isSlotAddr(v ssa.Value) bool {
@@ -300,9 +464,9 @@ func (e *batcherEngine) isBatchField(v ssa.Value, idx int) (ssa.Value, bool) {
 	return fa.X, true
 }
 
-// elemOf: v is a load of &list[idx]; returns the list and "first"/"last"/"" (other index)
-func (e *batcherEngine) elemOf(v ssa.Value) (ssa.Value, string, bool) {
-	u, ok := v.(*ssa.UnOp)
+// elemOf: v is a load of &list[idx]; returns the (resolved) list and "first"/"last"/"" (other index)
+func (e *batcherEngine) elemOf(s *bState, v ssa.Value) (ssa.Value, string, bool) {
+	u, ok := e.rs(s, v).(*ssa.UnOp)
 	if !ok || u.Op != token.MUL {
 		return nil, "", false
 	}
@@ -310,13 +474,14 @@ func (e *batcherEngine) elemOf(v ssa.Value) (ssa.Value, string, bool) {
 	if !ok {
 		return nil, "", false
 	}
+	lst := e.res(s, ia.X)
 	if k, ok := constInt(ia.Index); ok && k == 0 {
-		return ia.X, "first", true
+		return lst, "first", true
 	}
-	if l, ok := e.lastIdx[ia.Index]; ok && l == ia.X {
-		return ia.X, "last", true
+	if l, ok := e.lastIdx[ia.Index]; ok && e.res(s, l) == lst {
+		return lst, "last", true
 	}
-	return ia.X, "", true
+	return lst, "", true
 }
 
 func (e *batcherEngine) report(ok bool, construct string, at ssa.Instruction, good, bad string) {
@@ -334,10 +499,11 @@ func (e *batcherEngine) report(ok bool, construct string, at ssa.Instruction, go
 	e.bad[construct] = [2]string{pos, bad}
 }
 
-// ord: 1-based ordinal of a slot store / re-slice among the function's instructions of that kind, in source order
+// ord: 1-based ordinal of a slot store / re-slice among the instructions of that kind of the function that contains
+// it, in source order
 func (e *batcherEngine) ord(in ssa.Instruction) string {
 	var same []ssa.Instruction
-	allInstrs(e.fn, func(o ssa.Instruction) {
+	allInstrs(in.Parent(), func(o ssa.Instruction) {
 		switch x := o.(type) {
 		case *ssa.Store:
 			if _, ok := in.(*ssa.Store); ok && e.isSlotAddr(x.Addr) && !isNilConst(x.Val) {
@@ -360,103 +526,141 @@ func (e *batcherEngine) ord(in ssa.Instruction) string {
 	return ""
 }
 
+// prepare indexes len(v) and len(v)-1 in the function and in every function of the package (helpers are walked too).
 func (e *batcherEngine) prepare() {
 	e.lenOf, e.lastIdx, e.doneCur = map[ssa.Value]ssa.Value{}, map[ssa.Value]ssa.Value{}, map[ssa.Value]bool{}
-	allInstrs(e.fn, func(in ssa.Instruction) {
-		if call, ok := in.(*ssa.Call); ok && builtinName(call) == "len" {
-			e.lenOf[call] = call.Call.Args[0]
+	fns := append([]*ssa.Function{e.fn}, e.pkgFns...)
+	for _, fn := range fns {
+		allInstrs(fn, func(in ssa.Instruction) {
+			if call, ok := in.(*ssa.Call); ok && builtinName(call) == "len" {
+				e.lenOf[call] = call.Call.Args[0]
+			}
+		})
+	}
+	e.curPhi = map[ssa.Value]*ssa.Parameter{}
+	for _, fn := range fns {
+		if fn == e.fn {
+			continue // the function under analysis: doneCur, filled by the caller together with the ref-count obligations
 		}
-	})
-	allInstrs(e.fn, func(in ssa.Instruction) {
-		if bo, ok := in.(*ssa.BinOp); ok && bo.Op == token.SUB {
-			if k, ok := constInt(bo.Y); ok && k == 1 {
-				if l, ok := e.lenOf[bo.X]; ok {
-					e.lastIdx[bo] = l
+		allInstrs(fn, func(in ssa.Instruction) {
+			call, ok := in.(*ssa.Call)
+			if !ok || staticCalleeFn(call) != e.a.refCount || len(call.Call.Args) == 0 {
+				return
+			}
+			raw, ok := call.Call.Args[0].(*ssa.Parameter)
+			if !ok || call.Referrers() == nil {
+				return
+			}
+			for _, r := range *call.Referrers() {
+				if phi, ok := r.(*ssa.Phi); ok {
+					for _, ed := range phi.Edges {
+						if ed == ssa.Value(raw) {
+							e.curPhi[phi] = raw
+						}
+					}
 				}
 			}
-		}
-	})
+		})
+	}
+	for _, fn := range fns {
+		allInstrs(fn, func(in ssa.Instruction) {
+			if bo, ok := in.(*ssa.BinOp); ok && bo.Op == token.SUB {
+				if k, ok := constInt(bo.Y); ok && k == 1 {
+					if l, ok := e.lenOf[bo.X]; ok {
+						e.lastIdx[bo] = l
+					}
+				}
+			}
+		})
+	}
 }
 
 func (e *batcherEngine) run() {
 	e.visited = map[string]bool{}
-	init := &bState{alias: map[ssa.Value]bool{}, saved: map[ssa.Value]bool{}, nilv: map[ssa.Value]int8{}, lens: map[ssa.Value]ival{}, headPlaced: map[ssa.Value]int8{}}
-	e.walk(e.fn.Blocks[0], nil, init)
+	init := &bState{alias: map[ssa.Value]bool{}, saved: map[ssa.Value]bool{}, nilv: map[ssa.Value]int8{}, lens: map[ssa.Value]ival{}, headPlaced: map[ssa.Value]int8{},
+		bind: map[ssa.Value]ssa.Value{}, rets: map[ssa.Value][]ssa.Value{}}
+	e.walk(e.fn.Blocks[0], 0, nil, init, nil)
 }
 
-func (e *batcherEngine) walk(b *ssa.BasicBlock, from *ssa.BasicBlock, s *bState) {
+// inlinable: the call is a plain static call of a function of the batcher's package that (transitively) touches the
+// slot or flushes, is not already being walked and is not nested too deeply; such a call is walked as part of the path.
+func (e *batcherEngine) inlinable(call *ssa.Call, st *bFrame) *ssa.Function {
+	if _, isClosure := call.Call.Value.(*ssa.MakeClosure); isClosure {
+		return nil
+	}
+	cf := staticCalleeFn(call)
+	if cf == nil || len(cf.Blocks) == 0 || !e.relevant[cf] || e.a.flushFns[cf] || cf == e.a.refCount || cf == e.fn {
+		return nil
+	}
+	if len(cf.Params) != len(call.Call.Args) {
+		return nil
+	}
+	if st != nil && st.depth >= batcherInlineDepth {
+		return nil
+	}
+	for f := st; f != nil; f = f.up {
+		if f.callee == cf {
+			return nil
+		}
+	}
+	return cf
+}
+
+// walk explores the path that continues with instruction number `start` of block b. from: the predecessor block when
+// b is entered through a CFG edge (start == 0), nil when the walk (re-)enters the block after a helper returned or
+// at a function's entry. st: the helper calls in progress.
+func (e *batcherEngine) walk(b *ssa.BasicBlock, start int, from *ssa.BasicBlock, s *bState, st *bFrame) {
 	e.steps++
 	if e.steps > 200000 {
 		e.report(false, "exploration of "+fnName(e.fn), nil, "", "state space exceeded the bound; undecided")
 		return
 	}
 	// phis
-	if from != nil {
+	if from != nil && start == 0 {
 		idx := -1
 		for i, p := range b.Preds {
 			if p == from {
 				idx = i
 			}
 		}
-		type upd struct {
-			phi *ssa.Phi
-			v   ssa.Value
-		}
-		var ups []upd
+		ns := s.clone()
 		for _, in := range b.Instrs {
 			phi, ok := in.(*ssa.Phi)
 			if !ok {
 				break
 			}
-			ups = append(ups, upd{phi, phi.Edges[idx]})
-		}
-		ns := s.clone()
-		for _, u := range ups {
-			if _, ok := s.lens[u.v]; ok {
-				ns.lens[u.phi] = s.lens[u.v]
-				if h, ok := s.headPlaced[u.v]; ok {
-					ns.headPlaced[u.phi] = h
-				} else {
-					delete(ns.headPlaced, u.phi)
-				}
-				if s.tailOwed == u.v {
-					ns.tailOwed = u.phi
-				}
-			} else {
-				delete(ns.lens, u.phi)
-			}
-			if pt, ok := u.phi.Type().(*types.Pointer); ok && namedOf(pt.Elem()) == e.a.B {
-				if isNilConst(u.v) {
-					ns.nilv[u.phi] = nNil
-					ns.alias[u.phi], ns.saved[u.phi] = false, false
-				} else {
-					ns.nilv[u.phi] = s.nilv[u.v]
-					ns.alias[u.phi], ns.saved[u.phi] = s.alias[u.v], s.saved[u.v]
-				}
-			}
+			e.copyInfo(ns, s, e.res(s, phi.Edges[idx]), phi)
 		}
 		s = ns
 	}
-	k := fmt.Sprintf("%d|%s", b.Index, s.key())
+	k := fmt.Sprintf("%p|%d|%d|%s|%s", b.Parent(), b.Index, start, st.k(), s.key())
 	if e.visited[k] {
 		return
 	}
 	e.visited[k] = true
-	for _, in := range b.Instrs {
+	for i := start; i < len(b.Instrs); i++ {
+		in := b.Instrs[i]
+		site := fnName(in.Parent())
 		switch x := in.(type) {
 		case *ssa.UnOp:
 			if x.Op == token.MUL && e.isSlotAddr(x.X) {
 				s.alias[x] = true
+				s.saved[x] = false
 				s.nilv[x] = s.slot
 			}
 		case *ssa.Extract:
+			if rv, ok := s.rets[x.Tuple]; ok && x.Index < len(rv) {
+				e.copyInfo(s, s, rv[x.Index], x)
+				break
+			}
 			if sl, ok := x.Type().(*types.Slice); ok && types.Identical(sl.Elem(), e.a.reqIface) {
 				if call, ok := x.Tuple.(*ssa.Call); ok && call.Call.IsInvoke() && call.Call.Method.Name() == "MergeSplit" {
 					s.lens[x] = ival{0, -1}
 				}
 			}
 		case *ssa.Slice:
-			l, tracked := s.lens[x.X]
+			src := e.res(s, x.X)
+			l, tracked := s.lens[src]
 			if !tracked {
 				break
 			}
@@ -468,25 +672,31 @@ func (e *batcherEngine) walk(b *ssa.BasicBlock, from *ssa.BasicBlock, s *bState)
 			}
 			switch {
 			case lowOne && x.High == nil:
-				e.report(s.headPlaced[x.X] == 3, "first result of the merged list is put into the pending batch (request and callback) before it is dropped from the list in "+fnName(e.fn), x,
+				e.report(s.headPlaced[src] == 3, "first result of the merged list is put into the pending batch (request and callback) before it is dropped from the list in "+site, x,
 					"slot.req = list[0] and slot.done = append(slot.done, done) precede list[1:]",
 					"list[1:] drops the first MergeSplit result on a path where it was not stored into the pending batch together with the incoming request's completion callback: the data (or its callback) is lost")
 				s.lens[x] = l.dec()
-			case x.Low == nil && x.High != nil && e.lastIdx[x.High] == x.X:
+				delete(s.headPlaced, x)
+			case x.Low == nil && x.High != nil && e.lastIdx[x.High] != nil && e.res(s, e.lastIdx[x.High]) == src:
 				if s.tailOwed != nil {
-					e.report(false, "last result dropped twice in "+fnName(e.fn), x, "", "a second list[:len-1] while the previously dropped element has not been placed")
+					e.report(false, "last result dropped twice in "+site, x, "", "a second list[:len-1] while the previously dropped element has not been placed")
 				}
-				s.tailOwed, s.tailAt = x, x
-				// the dropped element is list[len-1] of x.X; remember the source list through the new value
 				s.lens[x] = l.dec()
-				s.headPlaced[x] = s.headPlaced[x.X]
-				e.tailSrc()[x] = x.X
+				s.headPlaced[x] = s.headPlaced[src]
+				if s.tailPlaced != nil && s.tailPlaced == src && s.slot == nNon {
+					// the dropped element was put into the pending batch just before
+					s.tailPlaced = nil
+					break
+				}
+				// the dropped element is list[len-1] of the source list
+				s.tailOwed, s.tailAt, s.tailSrc = x, x, src
 			default:
-				e.report(false, "unrecognised re-slicing of the MergeSplit result in "+fnName(e.fn), x, "", "re-slice of the result list that is neither list[1:] nor list[:len-1]; undecided")
+				e.report(false, "unrecognised re-slicing of the MergeSplit result in "+site, x, "", "re-slice of the result list that is neither list[1:] nor list[:len-1]; undecided")
 			}
 		case *ssa.Store:
 			if e.isSlotAddr(x.Addr) {
-				if isNilConst(x.Val) {
+				val := e.rs(s, x.Val)
+				if isNilConst(val) {
 					if s.slot != nNil {
 						s.owed, s.owedAt = true, x
 						// the values that denoted the slot's batch now denote the batch that was taken out
@@ -494,56 +704,60 @@ func (e *batcherEngine) walk(b *ssa.BasicBlock, from *ssa.BasicBlock, s *bState)
 					}
 					s.alias = map[ssa.Value]bool{}
 					s.slot = nNil
+					s.tailPlaced = nil
 				} else {
-					e.report(s.slot == nNil, "pending batch overwritten only when the slot is empty in "+fnName(e.fn)+e.ord(x), x,
+					e.report(s.slot == nNil, "pending batch overwritten only when the slot is empty in "+site+e.ord(x), x,
 						"every path reaching the store has the slot nil (tested or just flushed)",
 						"a new pending batch is stored while the slot may still hold a batch that was neither flushed nor saved: that batch and its completion callbacks are lost")
 					s.slot = nNon
 					s.alias = map[ssa.Value]bool{}
+					s.tailPlaced = nil
 					// does the new batch hold the dropped tail element and the current done?
-					if al, ok := strip(x.Val).(*ssa.Alloc); ok {
+					if al, ok := val.(*ssa.Alloc); ok {
 						reqV, doneV := e.fieldInit(al, e.a.reqField), e.fieldInit(al, e.a.doneField)
-						if s.tailOwed != nil {
-							lst, which, ok := e.elemOf(reqV)
-							src := e.tailSrc()[s.tailOwed]
-							if ok && which == "last" && lst == src {
-								s.tailOwed = nil
+						if lst, which, ok := e.elemOf(s, reqV); ok && which == "last" {
+							if s.tailOwed != nil && lst == s.tailSrc {
+								s.tailOwed, s.tailSrc = nil, nil
+							} else if s.tailOwed == nil {
+								if _, tracked := s.lens[lst]; tracked {
+									s.tailPlaced = lst
+								}
 							}
 						}
 						els, ok := variadicElems(doneV)
 						good := ok && len(els) > 0
 						for _, el := range els {
-							if !e.doneCur[strip(el)] {
+							if !e.isCur(s, el) {
 								good = false
 							}
 						}
-						e.report(good, "new pending batch carries the current request's (ref-counted) completion callback in "+fnName(e.fn)+e.ord(x), x,
+						e.report(good, "new pending batch carries the current request's (ref-counted) completion callback in "+site+e.ord(x), x,
 							"done list literal holds the done value that is also handed to the flushes",
 							"the new pending batch's done list does not consist of the request's current completion callback (the one that is ref-counted when the request is split): the callback fires early, twice or never")
 					} else {
-						e.report(false, "pending batch construction in "+fnName(e.fn), x, "", "the stored batch is not built at this site; undecided")
+						e.report(false, "pending batch construction in "+site, x, "", "the stored batch is not built at this site; undecided")
 					}
 				}
 				break
 			}
-			if base, ok := e.isBatchField(x.Addr, e.a.reqField); ok && s.alias[base] {
-				if lst, which, ok := e.elemOf(x.Val); ok && which == "first" {
+			if base, ok := e.isBatchField(x.Addr, e.a.reqField); ok && s.alias[e.res(s, base)] {
+				if lst, which, ok := e.elemOf(s, x.Val); ok && which == "first" {
 					s.headPlaced[lst] |= 1
 				}
 			}
-			if base, ok := e.isBatchField(x.Addr, e.a.doneField); ok && s.alias[base] {
+			if base, ok := e.isBatchField(x.Addr, e.a.doneField); ok && s.alias[e.res(s, base)] {
 				// append(load alias.done, doneCur...)
 				if call, ok := x.Val.(*ssa.Call); ok && builtinName(call) == "append" {
 					firstOK := false
 					if u, ok := call.Call.Args[0].(*ssa.UnOp); ok && u.Op == token.MUL {
-						if b2, ok := e.isBatchField(u.X, e.a.doneField); ok && s.alias[b2] {
+						if b2, ok := e.isBatchField(u.X, e.a.doneField); ok && s.alias[e.res(s, b2)] {
 							firstOK = true
 						}
 					}
 					els, ok2 := variadicElems(call.Call.Args[1])
 					good := firstOK && ok2 && len(els) > 0
 					for _, el := range els {
-						if !e.doneCur[strip(el)] {
+						if !e.isCur(s, el) {
 							good = false
 						}
 					}
@@ -552,10 +766,10 @@ func (e *batcherEngine) walk(b *ssa.BasicBlock, from *ssa.BasicBlock, s *bState)
 							s.headPlaced[l] |= 2
 						}
 					} else {
-						e.report(false, "pending batch's callback list is extended, not replaced, in "+fnName(e.fn), x, "", "the store to the pending batch's done list is not append(<its own done list>, <current done>): earlier requests' callbacks are dropped or the new one is missing")
+						e.report(false, "pending batch's callback list is extended, not replaced, in "+site, x, "", "the store to the pending batch's done list is not append(<its own done list>, <current done>): earlier requests' callbacks are dropped or the new one is missing")
 					}
 				} else {
-					e.report(false, "pending batch's callback list is extended, not replaced, in "+fnName(e.fn), x, "", "the pending batch's done list is overwritten with something that is not an append to itself")
+					e.report(false, "pending batch's callback list is extended, not replaced, in "+site, x, "", "the pending batch's done list is overwritten with something that is not an append to itself")
 				}
 			}
 		case *ssa.Call:
@@ -572,31 +786,62 @@ func (e *batcherEngine) walk(b *ssa.BasicBlock, from *ssa.BasicBlock, s *bState)
 				if reqA == nil || doneA == nil {
 					break
 				}
-				if u, ok := reqA.(*ssa.UnOp); ok && u.Op == token.MUL {
-					if base, ok := e.isBatchField(u.X, e.a.reqField); ok && s.saved[base] {
+				if u, ok := e.res(s, reqA).(*ssa.UnOp); ok && u.Op == token.MUL {
+					if base, ok := e.isBatchField(u.X, e.a.reqField); ok && s.saved[e.res(s, base)] {
 						// flush of the saved batch: its own done list must go with it
 						dOK := false
-						dv := strip(doneA)
-						if mi, ok := doneA.(*ssa.MakeInterface); ok {
+						dv := e.rs(s, doneA)
+						if mi, ok := e.res(s, doneA).(*ssa.MakeInterface); ok {
 							dv = mi.X
 						}
 						if du, ok := dv.(*ssa.UnOp); ok && du.Op == token.MUL {
-							if b2, ok := e.isBatchField(du.X, e.a.doneField); ok && b2 == base {
+							if b2, ok := e.isBatchField(du.X, e.a.doneField); ok && e.res(s, b2) == e.res(s, base) {
 								dOK = true
 							}
 						}
-						e.report(dOK, "the saved batch is flushed with its own callback list in "+fnName(e.fn), x, "flush(saved.req, saved.done)", "the batch taken out of the slot is flushed with a completion callback other than its own accumulated list: callbacks of the merged requests never fire")
+						e.report(dOK, "the saved batch is flushed with its own callback list in "+site, x, "flush(saved.req, saved.done)", "the batch taken out of the slot is flushed with a completion callback other than its own accumulated list: callbacks of the merged requests never fire")
 						s.owed = false
 					}
 				}
+				break
+			}
+			if cf := e.inlinable(x, st); cf != nil {
+				// a helper that touches the slot or flushes: its body is part of this path
+				for pi, prm := range cf.Params {
+					s.bind[prm] = e.res(s, x.Call.Args[pi])
+				}
+				fr := &bFrame{call: x, callee: cf, blk: b, idx: i + 1, up: st, depth: 1}
+				if st != nil {
+					fr.depth = st.depth + 1
+				}
+				fr.key = fmt.Sprintf("%s>%p", st.k(), x)
+				e.walk(cf.Blocks[0], 0, nil, s, fr)
+				return
 			}
 		case *ssa.Return:
+			if st != nil {
+				// back in the caller: the call's value is a new name of what the helper returned
+				rv := resultsOf(x)
+				for ri := range rv {
+					rv[ri] = e.res(s, rv[ri])
+				}
+				if len(rv) == 1 {
+					e.copyInfo(s, s, rv[0], st.call)
+				} else if len(rv) > 1 {
+					s.rets[st.call] = rv
+				}
+				e.walk(st.blk, st.idx, nil, s, st.up)
+				return
+			}
 			e.report(!s.owed, "a batch taken out of the slot is handed to flush on every path in "+fnName(e.fn), s.owedAt,
 				"every path from the slot being cleared reaches flush(saved…) before returning",
 				"the slot is cleared and a path reaches return without flushing the batch that was in it: accepted data is dropped")
 			e.report(s.tailOwed == nil, "the last result dropped from the list becomes the pending batch in "+fnName(e.fn), s.tailAt,
 				"list[:len-1] is followed by storing a batch built from list[len-1] into the slot",
 				"list[:len-1] drops the last MergeSplit result on a path where it is not stored as the new pending batch")
+			if s.tailPlaced != nil && s.slot == nNon {
+				e.report(false, "a result kept as the pending batch is dropped from the list in "+fnName(e.fn), in, "", "the last MergeSplit result was stored as the new pending batch on a path where it is not removed from the list of results to flush: it is sent twice")
+			}
 			return
 		}
 	}
@@ -605,23 +850,16 @@ func (e *batcherEngine) walk(b *ssa.BasicBlock, from *ssa.BasicBlock, s *bState)
 	iff, ok := last.(*ssa.If)
 	if !ok {
 		for _, sc := range b.Succs {
-			e.walk(sc, b, s.clone())
+			e.walk(sc, 0, b, s.clone(), st)
 		}
 		return
 	}
 	for side, sc := range b.Succs {
 		ns := s.clone()
 		if e.refine(ns, iff.Cond, side == 0) {
-			e.walk(sc, b, ns)
+			e.walk(sc, 0, b, ns, st)
 		}
 	}
-}
-
-func (e *batcherEngine) tailSrc() map[ssa.Value]ssa.Value {
-	if e.tailSrcM == nil {
-		e.tailSrcM = map[ssa.Value]ssa.Value{}
-	}
-	return e.tailSrcM
 }
 
 // fieldInit: the value stored into field idx of a freshly allocated batch
@@ -702,15 +940,34 @@ func (e *batcherEngine) refine(s *bState, cond ssa.Value, taken bool) bool {
 			op = token.LEQ
 		}
 	}
+	shift := 0
+	if _, isLast := e.lastIdx[y]; isLast {
+		x, y = y, x
+		switch op {
+		case token.LSS:
+			op = token.GTR
+		case token.GTR:
+			op = token.LSS
+		case token.LEQ:
+			op = token.GEQ
+		case token.GEQ:
+			op = token.LEQ
+		}
+	}
 	lst, ok := e.lenOf[x]
 	if !ok {
-		return true
+		// `last := len(list) - 1; last ⋈ k` is `len(list) ⋈ k+1`
+		if lst, ok = e.lastIdx[x]; !ok {
+			return true
+		}
+		shift = 1
 	}
 	kk, ok := constInt(y)
 	if !ok {
 		return true
 	}
-	k := int(kk)
+	k := int(kk) + shift
+	lst = e.res(s, lst)
 	l, tracked := s.lens[lst]
 	if !tracked {
 		return true
@@ -765,7 +1022,7 @@ func (e *batcherEngine) refine(s *bState, cond ssa.Value, taken bool) bool {
 
 func runC04Batcher(c *Ctx) {
 	p := c.P
-	c.Rule("R6", "TS", "pending-slot discipline of the exporter batcher, decided per path: a new pending batch is stored only when the slot is empty; a batch taken out of the slot is flushed with its own callback list before the function returns; every MergeSplit result dropped from the list (first, last) has been put into the pending batch together with the request's completion callback; the remaining results are all flushed (index loop 0..len) with the current callback; the ref-count equals the number of results and the raw callback is not used once the request has been split", 12)
+	c.Rule("R6", "TS", "pending-slot discipline of the exporter batcher, decided per path: a new pending batch is stored only when the slot is empty; a batch taken out of the slot is flushed with its own callback list before the function returns; every MergeSplit result dropped from the list (first, last) has been put into the pending batch together with the request's completion callback; the remaining results are all flushed (index loop 0..len) with the current callback; the ref-count equals the number of results and the raw callback is not used once the request has been split", batcherFloor)
 	c.Rule("R7", "LOCK", "the batcher's pending slot is read and written only with the batcher mutex held", 2)
 	a := findBatcher(c)
 	if a == nil {
@@ -789,11 +1046,15 @@ func runC04Batcher(c *Ctx) {
 			slotFns = append(slotFns, fn)
 		}
 	}
-	if len(slotFns) < 2 {
-		c.Undecided("functions that store to the pending slot", "-", fmt.Sprintf("%d found (expected ≥ 2: consume and timed flush)", len(slotFns)))
+	if len(slotFns) < 1 {
+		c.Undecided("functions that store to the pending slot", "-", "none found")
 	}
-	for _, fn := range slotFns {
-		e := &batcherEngine{c: c, a: a, fn: fn, bad: map[string][2]string{}, okSites: map[string]string{}}
+	pkgFns := p.AllSrcFuncs(a.pk)
+	relevant := batcherRelevant(a, pkgFns)
+	// analyse: the obligations of fn. loc receives those that are decided inside fn whatever its callers do (the
+	// ref-count of a split, the flush loops over the lists fn obtains), c those of the path exploration
+	analyse := func(c, loc *Ctx, fn *ssa.Function) {
+		e := &batcherEngine{c: c, a: a, fn: fn, bad: map[string][2]string{}, okSites: map[string]string{}, pkgFns: pkgFns, relevant: relevant}
 		// the "current" done values: phis merging the raw Done parameter with a ref-counted one, and, where the
 		// function never splits (no MergeSplit), nothing
 		var rawDone *ssa.Parameter
@@ -830,7 +1091,7 @@ func runC04Batcher(c *Ctx) {
 			}
 			lst, isLen := e.lenOf[cnt]
 			_, direct := lst.(*ssa.Extract)
-			c.Check(isLen && direct && rc.Call.Args[0] == ssa.Value(rawDone), fmt.Sprintf("ref-count of a split request equals the number of MergeSplit results in %s #%d", fnName(fn), rci+1), p.Pos(rc.Pos()),
+			loc.Check(isLen && direct && rc.Call.Args[0] == ssa.Value(rawDone), fmt.Sprintf("ref-count of a split request equals the number of MergeSplit results in %s #%d", fnName(fn), rci+1), p.Pos(rc.Pos()),
 				"newRefCountDone(done, len(<MergeSplit result>))", "the ref-counted callback is not created from the raw callback with the length of the complete result list: the original callback fires before all parts are done, or never")
 			// guarded by len > 1 (or unconditional)
 			// raw done must not be used after the split decision
@@ -845,7 +1106,7 @@ func runC04Batcher(c *Ctx) {
 				}
 			}
 			if decision == nil {
-				c.Bad(fmt.Sprintf("ref-counting is applied exactly when the request was split in %s #%d", fnName(fn), rci+1), p.Pos(rc.Pos()), "the ref-counted callback is not created under `len(results) > 1`")
+				loc.Bad(fmt.Sprintf("ref-counting is applied exactly when the request was split in %s #%d", fnName(fn), rci+1), p.Pos(rc.Pos()), "the ref-counted callback is not created under `len(results) > 1`")
 				continue
 			}
 			okRaw := true
@@ -868,7 +1129,7 @@ func runC04Batcher(c *Ctx) {
 			if where != nil {
 				pos = p.Pos(where.Pos())
 			}
-			c.Check(okRaw, fmt.Sprintf("the raw callback is not used once the split decision has been taken in %s #%d", fnName(fn), rci+1), pos, "only the merged (possibly ref-counted) callback is used afterwards", "the incoming request's raw completion callback is used after the point where it may have been replaced by the ref-counted one: it fires once per part or too early")
+			loc.Check(okRaw, fmt.Sprintf("the raw callback is not used once the split decision has been taken in %s #%d", fnName(fn), rci+1), pos, "only the merged (possibly ref-counted) callback is used afterwards", "the incoming request's raw completion callback is used after the point where it may have been replaced by the ref-counted one: it fires once per part or too early")
 		}
 		e.run()
 		for _, k := range sortedKeys(e.okSites) {
@@ -887,6 +1148,34 @@ func runC04Batcher(c *Ctx) {
 				}
 			}
 		})
+		// a call that hands a list to a helper of the package which returns (a re-slice of) that list yields the
+		// next version of the list: `list = qb.helper(ctx, list, done)`
+		nextVersion := func(call *ssa.Call, l ssa.Value) []ssa.Value {
+			cf := staticCalleeFn(call)
+			if cf == nil || len(cf.Blocks) == 0 || cf.Pkg != rootFn(fn).Pkg || len(cf.Params) != len(call.Call.Args) {
+				return nil
+			}
+			var out []ssa.Value
+			for k, arg := range call.Call.Args {
+				if arg != l {
+					continue
+				}
+				ri := batcherDerivedResult(a, cf, k)
+				if ri < 0 {
+					continue
+				}
+				if cf.Signature.Results().Len() == 1 {
+					out = append(out, call)
+					continue
+				}
+				for _, r := range *call.Referrers() {
+					if x, ok := r.(*ssa.Extract); ok && x.Index == ri {
+						out = append(out, x)
+					}
+				}
+			}
+			return out
+		}
 		for changed := true; changed; {
 			changed = false
 			allInstrs(fn, func(in ssa.Instruction) {
@@ -901,6 +1190,17 @@ func runC04Batcher(c *Ctx) {
 							lists[x], changed = true, true
 						}
 					}
+				case *ssa.Call:
+					for _, arg := range x.Call.Args {
+						if !lists[arg] {
+							continue
+						}
+						for _, nv := range nextVersion(x, arg) {
+							if !lists[nv] {
+								lists[nv], changed = true, true
+							}
+						}
+					}
 				}
 			})
 		}
@@ -912,8 +1212,11 @@ func runC04Batcher(c *Ctx) {
 				case *ssa.Slice:
 					final = false
 				case *ssa.Phi:
-					_ = rr
 					final = false
+				case *ssa.Call:
+					if len(nextVersion(rr, l)) > 0 {
+						final = false
+					}
 				}
 			}
 			if final {
@@ -922,73 +1225,45 @@ func runC04Batcher(c *Ctx) {
 		}
 		sort.Slice(finals, func(i, j int) bool { return finals[i].Pos() < finals[j].Pos() })
 		for i, l := range finals {
-			okLoop, why := false, "no flush loop over this list"
-			for _, r := range *l.Referrers() {
-				ia, ok := r.(*ssa.IndexAddr)
-				if !ok {
-					continue
-				}
-				// induction variable: `for i := 0; i < len(l); i++` (index = phi[0, phi+1], test phi < len)
-				// or `for i := range l` (go/ssa: index = phi[-1, index]+1, test index < len)
-				var phi *ssa.Phi
-				var tested ssa.Value
-				start := int64(0)
-				if ph, ok := ia.Index.(*ssa.Phi); ok {
-					phi, tested = ph, ph
-				} else if bo, ok := ia.Index.(*ssa.BinOp); ok && bo.Op == token.ADD {
-					if ph, ok := bo.X.(*ssa.Phi); ok {
-						if k, ok := constInt(bo.Y); ok && k == 1 {
-							phi, tested, start = ph, bo, -1
-						}
-					}
-				}
-				if phi == nil || len(phi.Edges) != 2 {
-					continue
-				}
-				zero, inc := false, false
-				for _, ed := range phi.Edges {
-					if k, ok := constInt(ed); ok && k == start {
-						zero = true
-					}
-					if bo, ok := ed.(*ssa.BinOp); ok && bo.Op == token.ADD && bo.X == ssa.Value(phi) {
-						if k, ok := constInt(bo.Y); ok && k == 1 {
-							inc = true
-						}
-					}
-				}
-				// loop condition <index> < len(l), true side is the body
-				condOK := false
-				if iff, ok := phi.Block().Instrs[len(phi.Block().Instrs)-1].(*ssa.If); ok {
-					if bo, ok := iff.Cond.(*ssa.BinOp); ok && bo.Op == token.LSS && bo.X == tested && e.lenOf[bo.Y] == l && phi.Block().Succs[0] == ia.Block() {
-						condOK = true
-					}
-				}
-				// element handed to flush with the current done
-				flushed := false
-				for _, r2 := range *ia.Referrers() {
-					u, ok := r2.(*ssa.UnOp)
-					if !ok {
-						continue
-					}
-					for _, r3 := range *u.Referrers() {
-						call, ok := r3.(*ssa.Call)
-						if !ok || !a.flushFns[staticCalleeFn(call)] {
-							continue
-						}
-						for _, arg := range call.Call.Args {
-							if types.Identical(arg.Type(), a.doneIface) && (e.doneCur[strip(arg)] || len(rcCalls) == 0) {
-								flushed = true
-							}
-						}
-					}
-				}
-				if zero && inc && condOK && flushed && loopHasOnlyConditionExit(ia.Block()) {
-					okLoop = true
-				} else {
-					why = fmt.Sprintf("loop shape: starts at 0=%v, step +1=%v, condition i<len(list)=%v, flush(list[i], current done)=%v", zero, inc, condOK, flushed)
-				}
+			okLoop, why := e.flushLoopOver(l, func(v ssa.Value) bool { return e.doneCur[strip(v)] || len(rcCalls) == 0 }, 0)
+			loc.Check(okLoop, fmt.Sprintf("remaining results #%d are all flushed in %s", i+1, fnName(fn)), p.Pos(l.Pos()), "for i := 0; i < len(list); i++ { flush(list[i], done) }", "the final version of a MergeSplit result list is not flushed completely with the current callback ("+why+"): results are dropped or their part of the ref-count never completes")
+		}
+	}
+	// A function is decided on its own where that is possible. A helper that exchanges state with its callers
+	// (it is handed the result list, returns the batch it took out of the slot, relies on the caller having tested
+	// the slot, …) cannot be: if it is an unexported function that is only ever called directly by functions of the
+	// package, its obligations are decided in the context of each caller instead – the caller's walk goes through
+	// the helper's body.
+	done := map[*ssa.Function]bool{}
+	work := append([]*ssa.Function(nil), slotFns...)
+	for len(work) > 0 {
+		fn := work[0]
+		work = work[1:]
+		if done[fn] {
+			continue
+		}
+		done[fn] = true
+		sub, loc := NewCtx(p, c.Prop, c.Tier, c.Config), NewCtx(p, c.Prop, c.Tier, c.Config)
+		sub.Rule("R6", "TS", "", 0)
+		loc.Rule("R6", "TS", "", 0)
+		analyse(sub, loc, fn)
+		for _, o := range loc.Obs {
+			c.add(o.Verdict, o.Construct, o.Pos, o.Detail)
+		}
+		clean := true
+		for _, o := range sub.Obs {
+			if o.Verdict != VOK {
+				clean = false
 			}
-			c.Check(okLoop, fmt.Sprintf("remaining results #%d are all flushed in %s", i+1, fnName(fn)), p.Pos(l.Pos()), "for i := 0; i < len(list); i++ { flush(list[i], done) }", "the final version of a MergeSplit result list is not flushed completely with the current callback ("+why+"): results are dropped or their part of the ref-count never completes")
+		}
+		if !clean {
+			if callers := batcherHelperCallers(fn, pkgFns); len(callers) > 0 {
+				work = append(work, callers...)
+				continue
+			}
+		}
+		for _, o := range sub.Obs {
+			c.add(o.Verdict, o.Construct, o.Pos, o.Detail)
 		}
 	}
 	// R7 lock
@@ -1000,4 +1275,259 @@ func runC04Batcher(c *Ctx) {
 		Structs:    []*types.Named{a.T},
 	}
 	reportLock(c, runLock(p, lc), lc)
+}
+
+// batcherFloor: the number of R6 obligations that shows the rule is not blind. The reference tree has 17, but most
+// of them come in pairs because Consume is written as two near-identical branches (slot empty / slot occupied);
+// merging the duplicated code into helpers is behaviour-preserving and must not trip the floor.
+const batcherFloor = 6
+
+// batcherRelevant: the functions of the package that touch the pending slot or flush, directly or through static calls.
+func batcherRelevant(a *batcherAnchors, fns []*ssa.Function) map[*ssa.Function]bool {
+	rel := map[*ssa.Function]bool{}
+	for _, fn := range fns {
+		allInstrs(fn, func(in ssa.Instruction) {
+			switch x := in.(type) {
+			case *ssa.FieldAddr:
+				if namedOf(x.X.Type()) == a.T && x.Field == a.slotIdx {
+					rel[fn] = true
+				}
+			case *ssa.Call:
+				if a.flushFns[staticCalleeFn(x)] {
+					rel[fn] = true
+				}
+			}
+		})
+	}
+	for changed := true; changed; {
+		changed = false
+		for _, fn := range fns {
+			if rel[fn] {
+				continue
+			}
+			allInstrs(fn, func(in ssa.Instruction) {
+				if x, ok := in.(*ssa.Call); ok && !rel[fn] {
+					if cf := staticCalleeFn(x); cf != nil && rel[cf] && !a.flushFns[cf] {
+						if _, isClosure := x.Call.Value.(*ssa.MakeClosure); !isClosure {
+							rel[fn], changed = true, true
+						}
+					}
+				}
+			})
+		}
+	}
+	return rel
+}
+
+// batcherHelperCallers: fn is an unexported package-level function or method whose every use in the package is a
+// plain static call (no method value, no go/defer, not callable through an interface): returns the calling
+// functions, nil if fn is not such a helper.
+func batcherHelperCallers(fn *ssa.Function, fns []*ssa.Function) []*ssa.Function {
+	if fn.Parent() != nil || token.IsExported(fn.Name()) || fn.Name() == "init" || fn.Name() == "main" {
+		return nil
+	}
+	var recvT types.Type
+	if r := fn.Signature.Recv(); r != nil {
+		recvT = r.Type()
+	}
+	var callers []*ssa.Function
+	seen := map[*ssa.Function]bool{}
+	escapes := false
+	for _, g := range fns {
+		allInstrs(g, func(in ssa.Instruction) {
+			var ops []*ssa.Value
+			for _, op := range in.Operands(ops) {
+				f, ok := (*op).(*ssa.Function)
+				if !ok {
+					continue
+				}
+				if o := f.Origin(); o != nil {
+					f = o
+				}
+				if f != fn {
+					continue
+				}
+				call, isCall := in.(*ssa.Call)
+				if !isCall || call.Call.IsInvoke() || op != &call.Call.Value {
+					escapes = true
+					continue
+				}
+				if !seen[g] {
+					seen[g] = true
+					callers = append(callers, g)
+				}
+			}
+			// a dynamic call through an interface the receiver implements
+			if ci, ok := in.(ssa.CallInstruction); ok && ci.Common().IsInvoke() && recvT != nil && ci.Common().Method.Name() == fn.Name() {
+				if it, ok := ci.Common().Value.Type().Underlying().(*types.Interface); ok && types.Implements(recvT, it) {
+					escapes = true
+				}
+			}
+		})
+	}
+	if escapes {
+		return nil
+	}
+	return callers
+}
+
+// batcherDerivedResult: the index of the []Request result of cf that is, at every return, parameter k itself or a
+// re-slice of it; -1 if there is no such result.
+func batcherDerivedResult(a *batcherAnchors, cf *ssa.Function, k int) int {
+	if k >= len(cf.Params) {
+		return -1
+	}
+	sl, ok := cf.Params[k].Type().(*types.Slice)
+	if !ok || !types.Identical(sl.Elem(), a.reqIface) {
+		return -1
+	}
+	ri := -1
+	res := cf.Signature.Results()
+	for i := 0; i < res.Len(); i++ {
+		if types.Identical(res.At(i).Type(), cf.Params[k].Type()) {
+			if ri >= 0 {
+				return -1
+			}
+			ri = i
+		}
+	}
+	if ri < 0 {
+		return -1
+	}
+	var derived func(v ssa.Value, seen map[ssa.Value]bool) bool
+	derived = func(v ssa.Value, seen map[ssa.Value]bool) bool {
+		if v == ssa.Value(cf.Params[k]) {
+			return true
+		}
+		if seen[v] {
+			return true
+		}
+		seen[v] = true
+		switch x := v.(type) {
+		case *ssa.Slice:
+			return derived(x.X, seen)
+		case *ssa.Phi:
+			for _, ed := range x.Edges {
+				if !derived(ed, seen) {
+					return false
+				}
+			}
+			return true
+		}
+		return false
+	}
+	rets := returnsOf(cf)
+	if len(rets) == 0 {
+		return -1
+	}
+	for _, r := range rets {
+		rv := resultsOf(r)
+		if ri >= len(rv) || !derived(rv[ri], map[ssa.Value]bool{}) {
+			return -1
+		}
+	}
+	return ri
+}
+
+// flushLoopOver: list l is flushed completely with the current callback: by an index loop 0..len(l) (or a range loop)
+// whose body hands l[i] and the current callback to flush – in the function that holds l or in a helper of the package
+// that l and the callback are passed to.
+func (e *batcherEngine) flushLoopOver(l ssa.Value, cur func(ssa.Value) bool, depth int) (bool, string) {
+	a := e.a
+	okLoop, why := false, "no flush loop over this list"
+	for _, r := range *l.Referrers() {
+		if call, ok := r.(*ssa.Call); ok && depth < batcherInlineDepth {
+			cf := staticCalleeFn(call)
+			if cf == nil || len(cf.Blocks) == 0 || a.flushFns[cf] || !e.relevant[cf] || len(cf.Params) != len(call.Call.Args) {
+				continue
+			}
+			for k, arg := range call.Call.Args {
+				if arg != l {
+					continue
+				}
+				curIn := func(v ssa.Value) bool {
+					v = strip(v)
+					for j, prm := range cf.Params {
+						if v == ssa.Value(prm) {
+							return cur(call.Call.Args[j])
+						}
+					}
+					return false
+				}
+				if ok2, _ := e.flushLoopOver(cf.Params[k], curIn, depth+1); ok2 {
+					okLoop = true
+				}
+			}
+			continue
+		}
+		ia, ok := r.(*ssa.IndexAddr)
+		if !ok {
+			continue
+		}
+		// induction variable: `for i := 0; i < len(l); i++` (index = phi[0, phi+1], test phi < len)
+		// or `for i := range l` (go/ssa: index = phi[-1, index]+1, test index < len)
+		var phi *ssa.Phi
+		var tested ssa.Value
+		start := int64(0)
+		if ph, ok := ia.Index.(*ssa.Phi); ok {
+			phi, tested = ph, ph
+		} else if bo, ok := ia.Index.(*ssa.BinOp); ok && bo.Op == token.ADD {
+			if ph, ok := bo.X.(*ssa.Phi); ok {
+				if k, ok := constInt(bo.Y); ok && k == 1 {
+					phi, tested, start = ph, bo, -1
+				}
+			}
+		}
+		if phi == nil || len(phi.Edges) != 2 {
+			continue
+		}
+		zero, inc := false, false
+		for _, ed := range phi.Edges {
+			if k, ok := constInt(ed); ok && k == start {
+				zero = true
+			}
+			if bo, ok := ed.(*ssa.BinOp); ok && bo.Op == token.ADD && bo.X == ssa.Value(phi) {
+				if k, ok := constInt(bo.Y); ok && k == 1 {
+					inc = true
+				}
+			}
+		}
+		// loop condition <index> < len(l) (or len(l) > <index>), true side is the body
+		condOK := false
+		if iff, ok := phi.Block().Instrs[len(phi.Block().Instrs)-1].(*ssa.If); ok {
+			if bo, ok := iff.Cond.(*ssa.BinOp); ok && phi.Block().Succs[0] == ia.Block() {
+				if bo.Op == token.LSS && bo.X == tested && e.lenOf[bo.Y] == l {
+					condOK = true
+				}
+				if bo.Op == token.GTR && bo.Y == tested && e.lenOf[bo.X] == l {
+					condOK = true
+				}
+			}
+		}
+		// element handed to flush with the current done
+		flushed := false
+		for _, r2 := range *ia.Referrers() {
+			u, ok := r2.(*ssa.UnOp)
+			if !ok {
+				continue
+			}
+			for _, r3 := range *u.Referrers() {
+				call, ok := r3.(*ssa.Call)
+				if !ok || !a.flushFns[staticCalleeFn(call)] {
+					continue
+				}
+				for _, arg := range call.Call.Args {
+					if types.Identical(arg.Type(), a.doneIface) && cur(arg) {
+						flushed = true
+					}
+				}
+			}
+		}
+		if zero && inc && condOK && flushed && loopHasOnlyConditionExit(ia.Block()) {
+			okLoop = true
+		} else {
+			why = fmt.Sprintf("loop shape: starts at 0=%v, step +1=%v, condition i<len(list)=%v, flush(list[i], current done)=%v", zero, inc, condOK, flushed)
+		}
+	}
+	return okLoop, why
 }
